@@ -336,4 +336,76 @@ theorem camFlow_lines (s : Str) (cb : Option (List Str)) (sessCtl : Option Str) 
       · exact h1
       · exact (h1.line "PLAY" hbs).line "TEARDOWN" hbs
 
+/-! ### redirects and the automatic switch to TCP -/
+
+theorem describeChain_lines : ∀ (locs : List Str) (redirects : Nat) (cs : Str) (u : Url) (t : Trace),
+    Shape u → t.LinesOK →
+    (describeChain locs redirects cs u t).1.LinesOK ∧ ∀ v, (describeChain locs redirects cs u t).2 = some v → Shape v := by
+  intro locs
+  induction locs with
+  | nil =>
+    intro redirects cs u t hu ht
+    unfold describeChain
+    exact ⟨(ht.line "OPTIONS" hu).line "DESCRIBE" hu, by intro v hv; simp at hv; subst hv; exact hu⟩
+  | cons l rest ih =>
+    intro redirects cs u t hu ht
+    have h0 := (ht.line "OPTIONS" hu).line "DESCRIBE" hu
+    unfold describeChain
+    simp only
+    split
+    · exact ⟨h0.fail _, by intro v hv; simp at hv⟩
+    · split
+      · exact ⟨h0.fail _, by intro v hv; simp at hv⟩
+      · next ru hru =>
+        split
+        · exact ⟨h0.fail _, by intro v hv; simp at hv⟩
+        · have hrs : Shape (if u.user.isSome then { ru with user := u.user } else ru) := by
+            split
+            · exact (parse_shape hru).setUser _
+            · exact parse_shape hru
+          exact ih _ _ _ _ hrs h0
+
+theorem switchFlow_lines (s : Str) (locs : List Str) (cb : Option (List Str)) (sessCtl : Option Str)
+    (controls : List Str) (sw : Switch) (ka : Bool) : (switchFlow s locs cb sessCtl controls sw ka).LinesOK := by
+  unfold switchFlow
+  split
+  · exact nil_linesOK.fail _
+  · next u0 hu0 =>
+    obtain ⟨hl, hs⟩ := describeChain_lines locs 0 u0.scheme u0 {} (parse_shape hu0) nil_linesOK
+    split
+    · next t heq => rw [heq] at hl; exact hl
+    · next t u heq =>
+      rw [heq] at hl hs
+      have hus : Shape u := hs u rfl
+      simp only
+      split
+      · exact (show Trace.LinesOK t from hl).fail _
+      · next base hbase =>
+        have hbs := findBaseURL_shape hus hbase
+        have hfin : ∀ t' : Trace, t'.LinesOK →
+            (if t'.failed.isSome = true then t' else
+              ((if ka = true then (t'.line "PLAY" (requestTarget (some base))).line "OPTIONS" (requestTarget (some base))
+                else t'.line "PLAY" (requestTarget (some base))).line "TEARDOWN" (requestTarget (some base)))).LinesOK := by
+          intro t' ht'
+          split
+          · exact ht'
+          · split
+            · exact ((ht'.line "PLAY" hbs).line "OPTIONS" hbs).line "TEARDOWN" hbs
+            · exact (ht'.line "PLAY" hbs).line "TEARDOWN" hbs
+        have hred : ∀ t' : Trace, t'.LinesOK →
+            (((t'.line "TEARDOWN" (requestTarget (some base))).line "OPTIONS" (requestTarget (some u))).line "DESCRIBE"
+              (requestTarget (some u))).LinesOK :=
+          fun t' ht' => ((ht'.line "TEARDOWN" hbs).line "OPTIONS" hus).line "DESCRIBE" hus
+        split
+        · exact hfin _ (camSetups_lines hbs controls _ hl)
+        · split
+          · exact hfin _ hl
+          · split
+            · exact (show Trace.LinesOK t from hl).fail _
+            · next mu hmu =>
+              exact hfin _ (camSetups_lines hbs _ _ (hred _ ((show Trace.LinesOK t from hl).line "SETUP" (mediaURL_shape hbs hmu))))
+        · split
+          · exact camSetups_lines hbs controls _ hl
+          · exact hfin _ (camSetups_lines hbs controls _ (hred _ ((camSetups_lines hbs controls _ hl).line "PLAY" hbs)))
+
 end Rtsp.Url
